@@ -213,6 +213,12 @@ class Scratch:
         try:
             if not self.keep:
                 shutil.rmtree(self.repo, ignore_errors=True)
+                # Kani's per-run artifacts for the workspace crates (goto binaries, per-harness outputs): not a cache
+                import glob
+                for d in glob.glob(os.path.join(self.target, "kani", "*", "debug", "build", "*")):
+                    base = os.path.basename(d)
+                    if base.startswith("shuttle") or base.startswith("deterministic") or base.startswith("tracing-"):
+                        shutil.rmtree(d, ignore_errors=True)
         finally:
             fcntl.flock(self.lockf, fcntl.LOCK_UN)
             self.lockf.close()
